@@ -463,39 +463,61 @@ class ZeroLikeMon(Monitor):
     def __init__(self, prop="C11"):
         self.prop = prop
         self.fhat = []
+        self.restored = []
         self.warm = 0
         self.batch_seen = 0
 
     def on_phase(self, inc, phase):
-        self.fhat = []
+        self.batch_seen = 0
+        if phase == "rerun":
+            self.fhat, self.restored = [], []
+
+    def after_load(self, inc, core, path, err):
+        # beta=0 batches restored from a checkpoint were judged before the crash; their recorded
+        # logZ are legitimate estimates of log f and widen the band for the resumed warm-up
+        if err is None:
+            h = core.state._history
+            self.restored = [float(z) for z, b in zip(h["logz"], h["beta"]) if float(b) == 0.0 and math.isfinite(float(z))]
+            self.fhat = []
 
     def after_commit(self, inc):
         w = inc.world
         st = _sampler(inc).state
         h = st._history
         beta = float(h["beta"][-1])
-        for t in range(len(h["logl"]) - 1, len(h["logl"])):
-            if np.any(np.isneginf(h["logl"][t])) or np.any(np.isnan(h["logl"][t])):
-                n_bad = int(np.sum(~np.isfinite(h["logl"][t])))
-                all_inf = n_bad == len(h["logl"][t])
-                w.violation(self.prop, "stored.minus_inf", f"batch {t} stores {n_bad} particle(s) with -inf log-likelihood" + (" (every prior draw of this iteration fell in the zero-likelihood region)" if all_inf else ""), all_draws_infinite=all_inf)
-        if beta == 0.0 and inc.batch_log:
-            n, ninf = inc.batch_log[-1]
-            f = (n - ninf) / n
-            self.fhat.append(f)
-            self.warm += 1
-            if ninf:
-                w.probe("minus_inf_replacement")
-            lz = float(h["logz"][-1])
+        t = len(h["logl"]) - 1
+        if np.any(~np.isfinite(h["logl"][t])):
+            n_bad = int(np.sum(~np.isfinite(h["logl"][t])))
+            all_inf = n_bad == len(h["logl"][t])
+            w.violation(self.prop, "stored.minus_inf", f"batch {t} stores {n_bad} particle(s) with -inf log-likelihood" + (" (every prior draw of this iteration fell in the zero-likelihood region)" if all_inf else ""), all_draws_infinite=all_inf)
+        if beta != 0.0:
+            self.batch_seen = len(inc.batch_log)
+            return
+        if not inc.batch_log:
+            return
+        # pool the likelihood batches of this iteration (a prior batch may be redrawn)
+        part = inc.batch_log[self.batch_seen:]
+        self.batch_seen = len(inc.batch_log)
+        n, ninf = sum(a for a, _ in part), sum(b for _, b in part)
+        if not n:
+            return
+        if len(part) > 1:
+            w.probe("prior_batch_redrawn")
+        f = (n - ninf) / n
+        self.fhat.append(f)
+        self.warm += 1
+        if ninf:
+            w.probe("minus_inf_replacement")
+        if len([x for x in self.fhat if x < 1]) >= 2:
+            w.probe("two_warmup_iterations_with_minus_inf")
+        lz = float(h["logz"][-1])
+        band = [math.log(x) for x in self.fhat if x > 0] + list(self.restored)
+        if not band:
+            return
+        lo, hi = min(band), max(band)
+        if not (lo - 1e-9 <= lz <= hi + 1e-9):
             pos = [x for x in self.fhat if x > 0]
-            if pos and any(x < 1 for x in self.fhat):
-                lo, hi = math.log(min(pos)), math.log(max(pos))
-                if len([x for x in self.fhat if x < 1]) >= 2:
-                    w.probe("two_warmup_iterations_with_minus_inf")
-                if not (lo - 1e-9 <= lz <= hi + 1e-9):
-                    w.violation(self.prop, "warmup.logz_band", f"beta=0 iteration {self.warm}: recorded logZ={lz:.6f} outside [log min f_t, log max f_t]=[{lo:.6f},{hi:.6f}] (finite fractions per warm-up batch {['%.3f' % x for x in self.fhat]}; sum of logs={sum(math.log(x) for x in pos):.6f})", n_warm=min(self.warm, 3))
-            elif pos and abs(lz) > 1e-9:
-                w.violation(self.prop, "warmup.logz_band", f"beta=0 iteration {self.warm}: recorded logZ={lz!r} although every prior draw had finite likelihood", n_warm=min(self.warm, 3))
+            w.violation(self.prop, "warmup.logz_band", f"beta=0 iteration {self.warm}: recorded logZ={lz:.6f} outside [log min f_t, log max f_t]=[{lo:.6f},{hi:.6f}] (finite fractions per warm-up batch {['%.3f' % x for x in self.fhat]}; sum of logs={sum(math.log(x) for x in pos):.6f})", n_warm=min(self.warm, 3))
 
 
 # ------------------------------------------------------------------------------------ C13 (calls)
